@@ -3,6 +3,7 @@ package store
 import (
 	"fmt"
 	"sync"
+	"time"
 
 	"github.com/feichai0017/NoKV/pb"
 	myraft "github.com/feichai0017/NoKV/raft"
@@ -30,6 +31,20 @@ func newCommandPipeline(applier func(*pb.RaftCmdRequest) (*pb.RaftCmdResponse, e
 		proposals: make(map[uint64]*commandProposal),
 		applier:   applier,
 	}
+}
+
+// proposalIDBase returns the value request ids of one store incarnation start
+// from. Every store that applies an entry completes the pending proposal
+// registered under the entry's request id, so ids must never collide between
+// stores or between two incarnations of one store: a plain per-store counter let
+// a store complete its own pending proposal with the response of another
+// store's (or its own pre-restart) command. The layout follows etcd's idutil:
+// 16 bits store id | 40 bits start time (ms) | 8 bits counter, the counter
+// carrying into the timestamp.
+func proposalIDBase(storeID uint64, now time.Time) uint64 {
+	const tsBits, cntBits = 40, 8
+	ts := uint64(now.UnixMilli()) & (1<<tsBits - 1)
+	return storeID<<(tsBits+cntBits) | ts<<cntBits
 }
 
 func (cp *commandPipeline) nextProposalID() uint64 {
